@@ -12,6 +12,7 @@ mod rec_equil;
 mod rec_json;
 mod rec_chordal;
 mod rec_consist;
+mod rec_kkt;
 mod replay_qdldl;
 mod replay_presolve;
 mod replay_update;
@@ -141,6 +142,20 @@ fn main() {
             let p: problem::Problem = serde_json::from_value(v["problem"].clone()).unwrap();
             let (lines, _, _) = rec_consist::record_one(v["run"].as_u64().unwrap_or(0) as usize, &p, 12345);
             write_lines(&args.get("out", "consist.ndjson"), &lines);
+        }
+        "kkt" => {
+            let mut lines = rec_kkt::record_structure(args.num("seed", 1), args.get("tier", "quick") == "thorough");
+            let ns = lines.len();
+            let (l2, cases) = rec_kkt::record_states(args.num("seed", 1), args.num("count", 400) as usize);
+            lines.extend(l2);
+            write_lines(&args.get("out", "kkt.ndjson"), &lines);
+            write_lines(&args.get("cases", "kkt.cases.ndjson"), &cases);
+            println!("{}", json!({"layouts": ns, "states": lines.len() - ns}));
+        }
+        "kkt-replay" => {
+            let v = load_case(&args);
+            let p: problem::Problem = serde_json::from_value(v["problem"].clone()).unwrap();
+            write_lines(&args.get("out", "kkt.ndjson"), &[rec_kkt::state_event_hist(v["run"].as_u64().unwrap_or(0) as usize, &p, v["k"].as_u64().unwrap_or(3) as u32, v["first"].as_u64().map(|x| x as u32))]);
         }
         "csc" => {
             let (lines, meta) = rec_csc::record(args.num("seed", 1), args.get("tier", "quick") == "thorough");
